@@ -946,6 +946,9 @@ func (e *Env) call(x *ECall) Val {
 			return Val{T: sx("=", sx("i-typ", v.T), "0"), S: "Bool"}
 		}
 		return Val{T: sx("=", v.T, "0"), S: "Bool"}
+	case "chancap":
+		v := arg(0)
+		return Val{T: sx("chancap", v.T), S: "Int"}
 	case "sent":
 		v := arg(0)
 		return Val{T: sx("select", g.heap(e.st, "ChanN", "(Array Int Int)"), v.T), S: "Int"}
